@@ -109,8 +109,64 @@ def build(spec):
     kw = dict(spec)
     if "connectivity" in kw and kw["connectivity"] is not None:
         kw["connectivity"] = [tuple(b) for b in kw["connectivity"]]
+    for field, kind in (kw.pop("_as", None) or {}).items():
+        if kw.get(field) is not None:
+            kw[field] = as_container(field, kind, kw[field])
     with contextlib.redirect_stdout(io.StringIO()):      # chgmult prints its search log when it refuses
         return Molecule(**kw)
+
+
+# the same values handed over in another container / memory layout / dtype (all of them accepted by the constructor)
+CONTAINERS = {
+    "geometry": ["N3", "F", ">f8", "flat>f8", "tuple", "nested", "strided", "longdouble"],
+    "real": ["int8", "ints", "npbool"],
+    "masses": [">f8", "tuple", "np"],
+    "fragments": ["int64", ">i4", "mixed"],
+    "fragment_charges": ["np", ">f8", "ints"],
+    "fragment_multiplicities": ["int8", "floats"],
+    "molecular_charge": ["np0d", "int"],
+    "molecular_multiplicity": ["float", "np"],
+    "connectivity": ["lists", "np", "array", "intorder"],
+    "symbols": ["np", "tuple"],
+}
+
+
+def as_container(field, kind, v):
+    if field == "geometry":
+        flat = [float(x) for x in np.asarray(v, dtype=float).ravel()]
+        G = np.array(flat).reshape(-1, 3)
+        return {"N3": lambda: G, "F": lambda: np.asfortranarray(G), ">f8": lambda: G.astype(">f8"), "flat>f8": lambda: np.array(flat, dtype=">f8"),
+                "tuple": lambda: tuple(flat), "nested": lambda: G.tolist(), "strided": lambda: np.array([flat, flat]).T[:, 0],
+                "longdouble": lambda: np.array(flat, dtype=np.longdouble)}[kind]()
+    if field == "real":
+        return {"int8": lambda: np.array([1 if x else 0 for x in v], dtype=np.int8), "ints": lambda: [1 if x else 0 for x in v],
+                "npbool": lambda: np.array([bool(x) for x in v])}[kind]()
+    if field == "masses":
+        return {">f8": lambda: np.array(v, dtype=">f8"), "tuple": lambda: tuple(v), "np": lambda: np.array(v, dtype=float)}[kind]()
+    if field == "fragments":
+        return {"int64": lambda: [np.array(f, dtype=np.int64) for f in v], ">i4": lambda: [np.array(f, dtype=">i4") for f in v],
+                "mixed": lambda: [np.array(f, dtype=np.int16) if i % 2 else list(f) for i, f in enumerate(v)]}[kind]()
+    if field == "fragment_charges":
+        if kind == "ints":
+            return [int(x) if float(x).is_integer() else x for x in v]
+        return np.array(v, dtype=">f8" if kind == ">f8" else float)
+    if field == "fragment_multiplicities":
+        return np.array(v, dtype=np.int8) if kind == "int8" else [float(x) for x in v]
+    if field == "molecular_charge":
+        return np.float64(v) if kind == "np0d" or not float(v).is_integer() else int(v)
+    if field == "molecular_multiplicity":
+        return float(v) if kind == "float" else np.int64(v)
+    if field == "connectivity":
+        if kind == "lists":
+            return [list(b) for b in v]
+        if kind == "np":
+            return [(np.int64(a), np.int64(b), np.float64(o)) for a, b, o in v]
+        if kind == "array":
+            return np.array([[float(a), float(b), float(o)] for a, b, o in v])
+        return [(a, b, int(o)) if float(o).is_integer() else (a, b, o) for a, b, o in v]
+    if field == "symbols":
+        return np.array(list(v)) if kind == "np" else tuple(v)
+    raise KeyError(field)
 
 
 def ekind(e):
@@ -405,10 +461,14 @@ def gen_spec(rng, max_atoms=6):
     for i in range(nat):
         gx, gy, gz = (i % 2) * 2.0, ((i // 2) % 2) * 2.0, (i // 4) * 2.5
         geom += [gen_coord(rng, gx), gen_coord(rng, gy), gen_coord(rng, gz)]
+    if rng.random() < 0.06:
+        # far from the origin (|x| up to ~1e3 Bohr: the Angstrom text round trip still delivers values within 1e-4 rounding units)
+        sh = [rng.choice([50.0, -300.0, 1000.0, -1000.0]) + round(rng.uniform(-1, 1), 3) for _ in range(3)]
+        geom = [x + sh[i % 3] for i, x in enumerate(geom)]
     spec = {"symbols": [s if rng.random() < 0.85 else rng.choice([s.lower(), s.upper()]) for s in syms], "geometry": geom}
     if rng.random() < 0.35 and nat > 1:
         real = [rng.random() < 0.7 for _ in range(nat)]
-        if not any(real):
+        if not any(real) and rng.random() < 0.6:        # ghost-only molecules are legal: keep some
             real[0] = True
         spec["real"] = real
     if rng.random() < 0.3:
@@ -495,6 +555,14 @@ def perturbations(rng, spec, m):
                                                     fragment_multiplicities=[int(x) for x in m.fragment_multiplicities],
                                                     molecular_charge=float(m.molecular_charge),
                                                     molecular_multiplicity=int(m.molecular_multiplicity))))
+    # the same values in other containers / layouts / dtypes (a few fields at once; also on top of the written-out defaults)
+    for full in (False, True):
+        src = dict(out[-1][2]) if full else dict(spec)
+        fields = [f for f in CONTAINERS if src.get(f) is not None]
+        pick = rng.sample(fields, min(len(fields), rng.randint(1, 3)))
+        if "geometry" not in pick and rng.random() < 0.5:
+            pick.append("geometry")
+        out.append(("containers", "equal", dict(src, _as={f: rng.choice(CONTAINERS[f]) for f in pick})))
     out.append(("mass_noise", "equal", with_(masses=[float(x) + rng.uniform(-1e-9, 1e-9) for x in m.masses])))
     # edits above the rounding unit
     k = rng.randrange(len(g))
@@ -574,6 +642,9 @@ CORPUS = [
     ("corpus_neg_zero", {"symbols": ["He"], "geometry": [0.0, -0.0, 0.0]}, {"symbols": ["He"], "geometry": [-0.0, 0.0, -1e-9]}),
     ("corpus_charge_vs_mult", {"symbols": ["Li"], "geometry": [0, 0, 0], "molecular_charge": 1.0}, {"symbols": ["Li"], "geometry": [0, 0, 0], "molecular_charge": -1.0}),
     ("corpus_docstring", {"symbols": ["He", "He"], "geometry": [0, 0, -3, 0, 0, 3]}, {"symbols": ["He", "He"], "geometry": [0, 0, -3, 0, 0, 3.000001]}),
+    ("corpus_ghost_only", {"symbols": ["He"], "geometry": [0, 0, 0], "real": [False]}, {"symbols": ["He"], "geometry": [0, 0, 0]}),
+    ("corpus_ghost_only_defaults", {"symbols": ["He", "H"], "geometry": [0, 0, 0, 0, 0, 2], "real": [False, False]},
+     {"symbols": ["He", "H"], "geometry": [0, 0, 0, 0, 0, 2], "real": [False, False], "molecular_charge": 0.0, "molecular_multiplicity": 1}),
 ]
 
 
@@ -601,7 +672,7 @@ def eq_dict_check(ma, mb):
     return None
 
 
-def judge_pair(ma, mb, ga=None, gb=None, tol=1e-3, with_dict=True):
+def judge_pair(ma, mb, ga=None, gb=None, tol=1e-3, with_dict=True, bond_mode=None):
     """returns (verdict dict, failure text or None, skipped?); ga/gb: the input coordinates when the molecule was
     built from keyword arguments; tol: how close (in rounding units) to a rounding boundary a coordinate may lie
     before the pair is left unjudged (0.03 for pairs that differ by <= 1e-10 noise on arbitrary coordinates)"""
@@ -613,6 +684,8 @@ def judge_pair(ma, mb, ga=None, gb=None, tol=1e-3, with_dict=True):
     obs = {"same_fields_after_rounding": same_fields, "same_hash": same_hash, "eq": eq1, "hash_a": ha, "hash_b": hb}
     if not same_fields:
         obs["differing"] = diff_report(fa, fb)[:12]
+    if bond_mode:
+        obs["stored_connectivity"] = [None if m.connectivity is None else [[int(a), int(b), float(o)] for a, b, o in m.connectivity] for m in (ma, mb)]
     if eq1 != same_hash or eq2 != same_hash:
         return obs, "__eq__ disagrees with equality of hashes", False
     if with_dict:
@@ -620,6 +693,8 @@ def judge_pair(ma, mb, ga=None, gb=None, tol=1e-3, with_dict=True):
         if bad:
             obs["eq_dict"] = bad
             return obs, "__eq__ against a dict disagrees with equality of hashes", False
+    if bond_mode == "caller":
+        return obs, None, False          # the caller vouched for the stored bond list: 'validated molecules' does not cover it
     if any_near_tie(ma, ga, tol) or any_near_tie(mb, gb, tol):
         return obs, None, True
     if same_fields and not same_hash:
@@ -663,6 +738,193 @@ def judge_sequential(case):
     return obs, None
 
 
+# ------------------------------------------------------------------------------------------------
+# history through shared mutable values: everything a live molecule hands out (property values, dict() values) and everything it
+# was handed (the arrays it was built from) is modified in place; molecules that were not touched must answer as before
+
+MUT_PROPS = ["masses", "geometry", "atomic_numbers", "mass_numbers", "real", "fragments", "fragment_charges",
+             "fragment_multiplicities", "symbols", "atom_labels", "connectivity"]
+MUT_ISOTOPE = 3.0160293201
+
+
+def _mutate_in_place(v, k=0):
+    """modify the value obtained from a molecule in place (entry k modulo its size); returns an undo closure, or None when
+    there is nothing to modify (None, empty, read-only, immutable)"""
+    try:
+        if isinstance(v, np.ndarray):
+            if v.size == 0 or not v.flags.writeable:
+                return None
+            flat = v.reshape(-1)                      # a view for contiguous arrays
+            if not np.shares_memory(flat, v):
+                return None
+            i = k % flat.size
+            old = flat[i].copy() if hasattr(flat[i], "copy") else flat[i]
+            kind = v.dtype.kind
+            if kind in "fc":
+                flat[i] = MUT_ISOTOPE if abs(float(flat[i]) - MUT_ISOTOPE) > 0.5 else MUT_ISOTOPE + 1.0
+            elif kind == "b":
+                flat[i] = not bool(flat[i])
+            elif kind in "iu":
+                flat[i] = flat[i] + 1
+            elif kind in "US":
+                flat[i] = "Ne" if str(flat[i]) != "Ne" else "Ar"
+            else:
+                return None
+
+            def undo(flat=flat, i=i, old=old):
+                flat[i] = old
+            return undo
+        if isinstance(v, list):
+            if not v:
+                return None
+            i = k % len(v)
+            x = v[i]
+            if isinstance(x, np.ndarray) or isinstance(x, list):
+                inner = _mutate_in_place(x, k // len(v))
+                if inner is not None:
+                    return inner
+            old = x
+            if isinstance(x, bool):
+                v[i] = not x
+            elif isinstance(x, (int, float, np.number)):
+                v[i] = x + 1
+            elif isinstance(x, tuple) and len(x) == 3:
+                v[i] = (x[0], x[1], float(x[2]) + 1.0)
+            elif isinstance(x, str):
+                v[i] = "Ne"
+            else:
+                return None
+
+            def undo_l(v=v, i=i, old=old):
+                v[i] = old
+            return undo_l
+        if isinstance(v, dict):
+            for key in sorted(v, key=str):
+                inner = _mutate_in_place(v[key], k)
+                if inner is not None:
+                    return inner
+    except (ValueError, TypeError):
+        return None
+    return None
+
+
+def _np_spec(spec):
+    """the keyword arguments of `spec` as the numpy arrays / fresh lists a caller might hold on to"""
+    kw = dict(spec)
+    kw["symbols"] = np.array(list(spec["symbols"]))
+    kw["geometry"] = np.array([float(x) for x in spec["geometry"]]).reshape(-1, 3)
+    if spec.get("masses") is not None:
+        kw["masses"] = np.array([float(x) for x in spec["masses"]])
+    if spec.get("real") is not None:
+        kw["real"] = np.array([bool(x) for x in spec["real"]])
+    if spec.get("fragments") is not None:
+        kw["fragments"] = [np.array(f, dtype=np.int32) for f in spec["fragments"]]
+    for key in ("fragment_charges", "fragment_multiplicities"):
+        if spec.get(key) is not None:
+            kw[key] = list(spec[key])
+    if spec.get("connectivity") is not None:
+        kw["connectivity"] = [tuple(b) for b in spec["connectivity"]]
+    return kw
+
+
+def judge_mutation(case):
+    """case: {"a": spec, "mutate": [where, name, k]} with where = "property" | "dict" | "supplied".
+    Molecule A (and an independent twin C) are built from the same keyword arguments and hashed; the value A hands out through the
+    property / inside dict() — or the array A was built from — is then modified in place. Afterwards: the twin, and molecules built
+    afresh from the same arguments / from the JSON and psi4 texts written before the modification, must hash as before; A itself
+    must hash as before when it was not handed the value by reference, i.e. for "supplied" (validated construction copies) and
+    for a property of a field A does not store (defaults computed on access). The modification is undone before returning.
+    Returns (observed, failure text or None, applicable?)."""
+    from qcelemental.models import Molecule
+    spec = case["a"]
+    where, name, k = case["mutate"]
+    with contextlib.redirect_stdout(io.StringIO()):
+        kw = _np_spec(spec) if where == "supplied" else None
+        ma = Molecule(**kw) if where == "supplied" else build(spec)
+        mc = build(spec)
+        ha, hc = ma.get_hash(), mc.get_hash()
+        texts = {"json": ma.json()}
+        try:
+            texts["psi4"] = ma.to_string("psi4", units="Bohr")
+        except Exception:
+            pass
+
+        def fresh():
+            out = {"kwargs": build(spec).get_hash(), "json": Molecule.from_data(texts["json"], dtype="json").get_hash()}
+            if "psi4" in texts:
+                try:
+                    out["psi4"] = Molecule.from_data(texts["psi4"], dtype="psi4").get_hash()
+                except Exception:
+                    pass
+            return out
+        before = fresh()
+        stored = ma.dict()
+        if where == "property":
+            value = getattr(ma, name)
+            a_must_keep = name not in stored
+        elif where == "dict":
+            value = stored.get(name)
+            a_must_keep = False
+        else:
+            value = kw.get(name)
+            a_must_keep = True
+        dflt = None
+        if where == "supplied" and value is not None:
+            # does the supplied value say what the molecule would have assumed anyway (known finding: then the caller's array is kept)
+            try:
+                d0 = getattr(build({kk: vv for kk, vv in spec.items() if kk != name}), name)
+                if name == "fragments":
+                    dflt = len(d0) == len(value) and all(np.array_equal(x, y) for x, y in zip(d0, value))
+                elif name == "masses":
+                    dflt = bool(np.allclose(np.asarray(d0, dtype=float), np.asarray(value, dtype=float)))
+                else:
+                    dflt = bool(np.array_equal(np.asarray(d0), np.asarray(value)))
+            except Exception:
+                dflt = None
+        undo = _mutate_in_place(value, k)
+        if undo is None:
+            return {}, None, False
+        try:
+            after = fresh()
+            ha2, hc2 = ma.get_hash(), mc.get_hash()
+            eq_ac = (ma == mc)
+        finally:
+            undo()
+    obs = {"hash_before": ha, "hash_after": ha2, "twin_before": hc, "twin_after": hc2, "fresh_before": before, "fresh_after": after,
+           "modified": f"{where}:{name}[{k}]"}
+    if dflt is not None:
+        obs["supplied_equals_default"] = dflt
+    what = {"property": f"the array returned by the molecule's {name} property", "dict": f"the value under {name!r} in the molecule's dict()",
+            "supplied": f"the {name} array the molecule had been built from"}[where]
+    if hc2 != hc:
+        return obs, f"the hash of an independently built molecule changed after {what} was modified in place", True
+    for route in sorted(before):
+        if after.get(route) != before[route]:
+            return obs, f"a molecule built afresh ({route}) from the same input hashes differently after {what} was modified in place", True
+    if a_must_keep and ha2 != ha:
+        return obs, f"the hash of the molecule changed after {what} (not stored by the molecule) was modified in place", True
+    if eq_ac != (ha2 == hc2):
+        return obs, "__eq__ disagrees with equality of hashes", True
+    return obs, None, True
+
+
+def mutation_cases(rng, spec, m0, n=3):
+    """a few (where, name, k) choices for one base molecule"""
+    out = []
+    stored = sorted(k for k, v in m0.dict().items() if isinstance(v, (np.ndarray, list, dict)))
+    supplied = sorted(k for k in ("symbols", "geometry", "masses", "real", "fragments", "fragment_charges", "fragment_multiplicities",
+                                  "connectivity") if spec.get(k) is not None)
+    for _ in range(n):
+        r = rng.random()
+        if r < 0.6:
+            out.append(["property", rng.choice(MUT_PROPS), rng.randrange(12)])
+        elif r < 0.8 and stored:
+            out.append(["dict", rng.choice(stored), rng.randrange(12)])
+        elif supplied:
+            out.append(["supplied", rng.choice(supplied), rng.randrange(12)])
+    return out
+
+
 def zone_limit(n):
     """largest |k| (units of 10^-n) that float_prep's array branch flushes to zero with the 5**-(n+1) threshold"""
     k = 0
@@ -686,7 +948,52 @@ def _known_zone(f):
     return True
 
 
-KNOWN = {"C11-zero-flip-threshold": _known_zone}
+def _known_text_bonds(f):
+    """only: same bonds, one listing stored as given by from_data(text, connectivity=...), hashes differ"""
+    if f.get("what") != "the listed fields agree after the documented rounding but the hashes differ":
+        return False
+    if case_bond_mode(f.get("case") or {}) != "library":
+        return False
+    obs = f.get("observed") or {}
+    sc = obs.get("stored_connectivity")
+    if not sc or sc[0] is None or sc[1] is None or obs.get("eq") is not False:
+        return False
+    ca, cb = _canon_bonds(sc[0]), _canon_bonds(sc[1])
+    as_stored = [[(int(a), int(b), float(o)) for a, b, o in x] for x in sc]
+    return ca == cb and (as_stored[0] != ca or as_stored[1] != cb)
+
+
+def _known_default_alias(f):
+    """only: the molecule's own hash follows the caller's masses / real / fragments array, and that array held the default values"""
+    case = f.get("case") or {}
+    mut = case.get("mutate") or [None, None, None]
+    return (mut[0] == "supplied" and mut[1] in ("masses", "real", "fragments")
+            and str(f.get("what", "")).startswith("the hash of the molecule changed after the ")
+            and (f.get("observed") or {}).get("supplied_equals_default") is True)
+
+
+KNOWN = {"C11-zero-flip-threshold": _known_zone, "C11-text-keyword-bonds-unvalidated": _known_text_bonds,
+         "C11-default-valued-array-kept-by-reference": _known_default_alias}
+
+WATER = {"symbols": ["O", "H", "H"], "geometry": [0, 0, 0, 0, 1.5, 1.1, 0, -1.5, 1.1], "connectivity": [[0, 1, 1.0], [0, 2, 1.0]]}
+WATER_ALT = [[2, 0, 1.0], [1, 0, 1.0]]
+UNVALIDATED_CORPUS = [
+    ("text_conn", {"a": WATER, "chain_a": [["text_conn", WATER["connectivity"]]], "chain_b": [["text_conn", WATER_ALT]]}),
+    ("text_conn_vs_kwargs", {"a": WATER, "chain_b": [["text_conn", WATER_ALT]]}),
+    ("json_payload", {"a": WATER, "chain_b": [["payload_conn", "json", WATER_ALT]]}),
+    ("dict_payload", {"a": WATER, "chain_b": [["payload_conn", "dict", WATER_ALT]]}),
+    ("msgpack_payload", {"a": WATER, "chain_b": [["payload_conn", "msgpack", WATER_ALT]]}),
+    ("copy_update", {"a": WATER, "chain_b": [["copy_conn", WATER_ALT]]}),
+    ("copy_update_bond_order", {"a": WATER, "chain_b": [["copy_conn", [[2, 0, 2.0], [1, 0, 1.0]]]]}),
+]
+HE2 = {"symbols": ["He", "He"], "geometry": [0.0, 0.0, -1.5, 0.0, 0.0, 1.5]}
+HE2_FULL = {"symbols": ["He", "He", "Ne"], "geometry": [0, 0, 0, 0, 0, 3, 0, 2, 0], "fragments": [[0, 1], [2]], "masses": [4.00260325413, 3.0160293201, 19.9924401762],
+            "real": [True, True, False], "fragment_charges": [0.0, 0.0], "fragment_multiplicities": [1, 1], "connectivity": [[0, 1, 1.0]]}
+MUTATION_CORPUS = ([{"a": HE2, "mutate": ["property", nm, 0]} for nm in MUT_PROPS]
+                   + [{"a": HE2_FULL, "mutate": ["property", nm, 1]} for nm in MUT_PROPS]
+                   + [{"a": HE2_FULL, "mutate": ["dict", nm, 0]} for nm in ("geometry", "masses", "real", "fragments", "fragment_charges", "connectivity", "symbols")]
+                   + [{"a": HE2_FULL, "mutate": ["supplied", nm, 0]} for nm in ("geometry", "masses", "real", "fragments", "fragment_charges", "fragment_multiplicities", "connectivity", "symbols")]
+                   + [{"a": dict(HE2, real=[True, True]), "mutate": ["supplied", "real", 0]}])
 
 
 def apply_recipe(m, rec):
@@ -744,7 +1051,90 @@ def apply_recipe(m, rec):
             d = {**m.dict(), **_update_of(m, rec[1], for_dict=True)}
             d.pop("validated", None)
             return Molecule(**d)
+        # bond lists that reach the object WITHOUT passing the validator (which would canonicalise them)
+        if kind == "text_conn":                    # text cannot carry bonds: keyword override next to a psi4 text
+            return Molecule.from_data(m.to_string("psi4", units="Bohr"), dtype="psi4", connectivity=[tuple(b) for b in rec[1]])
+        if kind == "payload_conn":                 # a payload some other producer wrote (validated flag kept), bonds listed its own way
+            enc = rec[1]
+            if enc == "dict":
+                return Molecule(**{**m.dict(), "connectivity": [tuple(b) for b in rec[2]]})
+            if enc == "from_data_dict":
+                return Molecule.from_data({**m.dict(), "connectivity": [tuple(b) for b in rec[2]]})
+            if enc == "json":
+                payload = json.loads(m.json())
+                payload["connectivity"] = [list(b) for b in rec[2]]
+                return Molecule.from_data(json.dumps(payload), dtype="json")
+            if enc == "msgpack":
+                from qcelemental.util import msgpackext_dumps, msgpackext_loads
+                payload = msgpackext_loads(m.serialize("msgpack-ext"))
+                payload["connectivity"] = [list(b) for b in rec[2]]
+                return Molecule.from_data(msgpackext_dumps(payload), dtype="msgpack")
+            raise KeyError(enc)
+        if kind == "copy_conn":
+            return m.copy(update={"connectivity_": [tuple(b) for b in rec[1]]})
     raise KeyError(kind)
+
+
+UNVALIDATED_BOND_RECIPES = ("text_conn", "payload_conn", "copy_conn")
+
+
+def case_bond_mode(case):
+    """None: validated molecules (the whole oracle applies). "library": a bond list reached the object through
+    from_data(text, connectivity=...), where the LIBRARY marks the molecule validated (whole oracle; known finding
+    C11-text-keyword-bonds-unvalidated). "caller": the caller vouched for the payload (validated=True / copy(update)): only
+    'hash equality and == coincide' is judged."""
+    kinds = [r[0] for r in case.get("chain_a", []) + case.get("chain_b", [])]
+    if any(k in ("payload_conn", "copy_conn") for k in kinds):
+        return "caller"
+    if "text_conn" in kinds:
+        return "library"
+    return None
+
+
+def _canon_bonds(conn):
+    return None if conn is None else sorted((min(int(a), int(b)), max(int(a), int(b)), float(o)) for a, b, o in conn)
+
+
+def relisted(rng, conn):
+    """the same bonds listed in another order / orientation (differs from the canonical listing whenever possible)"""
+    c = [[int(a), int(b), float(o)] for a, b, o in conn]
+    canon = [list(x) for x in _canon_bonds(c)]
+    for _ in range(8):
+        c2 = [list(b) for b in c]
+        rng.shuffle(c2)
+        c2 = [[b[1], b[0], b[2]] if rng.random() < 0.6 else b for b in c2]
+        if c2 != canon:
+            return c2
+    return [[b[1], b[0], b[2]] for b in reversed(canon)]
+
+
+def unvalidated_bond_cases(rng, spec, m0):
+    """pairs in which at least one molecule holds a stored bond list that never went through the validator"""
+    conn = m0.connectivity
+    if not conn:
+        return []
+    out = []
+
+    def recipe(listing):
+        r = rng.random()
+        if r < 0.4:
+            return ["text_conn", listing]
+        if r < 0.8:
+            return ["payload_conn", rng.choice(["dict", "from_data_dict", "json", "msgpack"]), listing]
+        return ["copy_conn", listing]
+    l1, l2 = relisted(rng, conn), relisted(rng, conn)
+    changed = [list(b) for b in l2]
+    kk = rng.randrange(len(changed))
+    changed[kk][2] = rng.choice([o for o in ORDERS if o != changed[kk][2]])
+    # validated listing against the same bonds re-listed without validation
+    ra = recipe(l1)
+    out.append(("unvalidated_bonds:" + ra[0] + ":relisted", {"a": spec, "chain_b": [ra]}))
+    # two unvalidated listings of the same bonds; and one with a changed bond order
+    ra, rb = recipe(l1), recipe(l2)
+    out.append(("unvalidated_bonds:" + ra[0] + "+" + rb[0] + ":relisted", {"a": spec, "chain_a": [ra], "chain_b": [rb]}))
+    rb = recipe(changed)
+    out.append(("unvalidated_bonds:" + rb[0] + ":bond_order", {"a": spec, "chain_a": [recipe(l1)], "chain_b": [rb]}))
+    return out
 
 
 def _update_of(m, upd, for_dict=False):
@@ -979,8 +1369,8 @@ def correspond(ctx):
 
     def add_pair(stream, case, ma, mb, intended=None):
         nonlocal skipped_tie
-        with_dict = rng.random() < 0.2 or stream.startswith("corpus")
-        obs, bad, skipped = judge_pair(ma, mb, *case_geoms(case), tol=case_tol(case), with_dict=with_dict)
+        with_dict = rng.random() < 0.2 or stream.startswith("corpus") or stream.startswith("unvalidated_bonds")
+        obs, bad, skipped = judge_pair(ma, mb, *case_geoms(case), tol=case_tol(case), with_dict=with_dict, bond_mode=case_bond_mode(case))
         if with_dict:
             corr.count("oracle:eq_against_dict")
         corr.count("oracle:" + stream.split(":")[0])
@@ -989,7 +1379,8 @@ def correspond(ctx):
             skipped_tie += 1
             corr.hit("oracle_skipped_near_tie")
         if bad:
-            corr.failures.append({"stream": "oracle:" + stream, "case": case, "what": bad, "observed": obs})
+            fstream = stream if not stream.startswith("unvalidated_bonds") else ("unvalidated_bonds:corpus" if ":corpus:" in stream else "unvalidated_bonds")
+            corr.failures.append({"stream": "oracle:" + fstream, "case": case, "what": bad, "observed": obs})
         elif intended and not skipped and (intended == "equal") != obs["same_hash"]:
             # the generator meant something else; only count it (the oracle's verdict stands)
             corr.hit("intent_mismatch:" + stream)
@@ -1010,6 +1401,29 @@ def correspond(ctx):
             corr.count("oracle:sequential")
             if bad:
                 corr.failures.append({"stream": "oracle:sequential:" + name, "case": case, "what": bad, "observed": obs})
+    def add_mutation(case, corpus=False):
+        try:
+            mobs, mbad, applicable = judge_mutation(case)
+        except Exception as e:
+            corr.hit(f"mutation_unavailable:{case['mutate'][0]}:{case['mutate'][1]}:{ekind(e)}")
+            return
+        if not applicable:
+            corr.hit("mutation_nothing_to_modify:" + case["mutate"][0] + ":" + case["mutate"][1])
+            return
+        corr.count("oracle:mutation")
+        corr.hit("mutation:" + case["mutate"][0] + ":" + case["mutate"][1])
+        if mbad:
+            corr.failures.append({"stream": "oracle:mutation:" + case["mutate"][0] + (":corpus" if corpus else ""), "case": case, "what": mbad, "observed": mobs})
+
+    for mcase in MUTATION_CORPUS:
+        add_mutation(mcase, corpus=True)
+    for name, ucase in UNVALIDATED_CORPUS:
+        try:
+            ua, ub = build_pair(ucase)
+        except Exception as e:
+            corr.hit(f"derived_unavailable:{name}:{ekind(e)}")
+            continue
+        add_pair("unvalidated_bonds:corpus:" + name, ucase, ua, ub)
     for name, a, b in CORPUS:
         case = {"a": a, "b": b}
         ma, mb = build(a), build(b)
@@ -1063,6 +1477,15 @@ def correspond(ctx):
             if dstream.startswith("derived") and rng.random() < 0.4:
                 add_canon(dstream, da, dcase)
             add_pair(dstream, dcase, da, db)
+        for dstream, dcase in unvalidated_bond_cases(rng, spec, m0):
+            try:
+                da, db = build_pair(dcase)
+            except Exception as e:
+                corr.hit(f"derived_unavailable:{dstream.split(':')[1]}:{ekind(e)}")
+                continue
+            add_pair(dstream, dcase, da, db)
+        for mut in mutation_cases(rng, spec, m0):
+            add_mutation({"a": spec, "mutate": mut})
         seq_done = False
         for label, intended, sp in perturbations(rng, spec, m0):
             if label in ("coord_1e-6", "symbol", "noise") and not seq_done and rng.random() < 0.4:
@@ -1223,7 +1646,7 @@ def search(ctx, corr, reasons):
                 case = {"a": a, "b": b}
             if "a" in case and ("b" in case or "route" in case or "chain_b" in case):
                 ma, mb = build_pair(case)
-                obs, bad, _ = judge_pair(ma, mb, *case_geoms(case), tol=case_tol(case))
+                obs, bad, _ = judge_pair(ma, mb, *case_geoms(case), tol=case_tol(case), bond_mode=case_bond_mode(case))
                 if bad:
                     found.append({"stream": "search", "case": case, "what": bad, "observed": obs})
         except Exception:
@@ -1260,9 +1683,19 @@ def replay(ctx, rp):
     if case.get("sequential"):
         obs, bad = judge_sequential(case)
         return {"input": case, "implementation": obs, "oracle": bad, "fails": bool(bad)}
+    def verdict(obs, bad):
+        # a complaint that is exactly a recorded known finding is not a new failure (the check itself reports it as KNOWN-FINDING)
+        known = [kid for kid, pred in KNOWN.items() if bad and kid != "C11-zero-flip-threshold" and pred({"case": case, "what": bad, "observed": obs})]
+        out = {"input": case, "implementation": obs, "oracle": bad, "fails": bool(bad) and not known}
+        if known:
+            out["known_finding"] = known
+        return out
+    if "mutate" in case:
+        obs, bad, _ = judge_mutation(case)
+        return verdict(obs, bad)
     ma, mb = build_pair(case)
-    obs, bad, skipped = judge_pair(ma, mb, *case_geoms(case), tol=case_tol(case))
-    return {"input": case, "implementation": obs, "oracle": bad, "fails": bool(bad)}
+    obs, bad, skipped = judge_pair(ma, mb, *case_geoms(case), tol=case_tol(case), bond_mode=case_bond_mode(case))
+    return verdict(obs, bad)
 
 
 TRUSTED = [
@@ -1276,7 +1709,9 @@ TRUSTED = [
     "C11_np_around_exact proves the two agree unless fl(x*10^n) is a half-integer, for every fl that is monotone and exact on "
     "half-integers — those two IEEE-754 properties of the multiplication are hypotheses (not modelled bit by bit); for the noise clause the "
     "hypotheses are discharged for the executable fl64 (C11_fl64_error: error bound proved of the definition), so what remains trusted "
-    "there is only fl64 = the machine's multiplication; the executable fl64 / "
+    "there is only fl64 = the machine's multiplication; both hypotheses are also discharged for fl64 itself on [-2^40, 2^40] "
+    "(C11_fl64_keeps_half: it never crosses a half-integer), giving C11_np_around_exact_binary64 / C11_prep_arr64_exact / "
+    "C11_np_around_differs_only_near_tie with no hypothesis on the rounding; the executable fl64 / "
     "prep_arr64 (numpy's algorithm) is compared with the machine on every value incl. ties and near-ties (streams float_prep_binary64, "
     "binary64_product). Molecule-level comparison and the oracle still exclude (and count) molecules with a value within 1e-3 units of a tie",
     "json.dumps / float repr are modelled at token level (TFlt k n = repr of the double nearest k*10^-n); periodictable.to_mass is an "
@@ -1304,18 +1739,30 @@ LEVEL_TEXT = (
     "that is monotone, exact on half-integers and within u of the exact product on [-B, B]; and with no hypothesis on the rounding left: "
     "C11_fl64_error (the executable binary64 rounding fl64 errs by at most 2^-13 on [-2^40, 2^40]) and C11_noise_insensitive_binary64 "
     "(float_prep computed by numpy's algorithm rint(fl64(x*10^n)) does not see noise <= 1e-10 away from a boundary and equals the exact "
-    "model there); C11_prep_arr64_agrees, C11_sensitive / _scalar / "
+    "model there), C11_fl64_keeps_half (fl64 never crosses a half-integer on [-2^40, 2^40]: the monotonicity / half-integer hypotheses "
+    "of C11_np_around_exact hold of fl64 in the form the proof uses), C11_np_around_exact_binary64 and C11_prep_arr64_exact (numpy's "
+    "algorithm on fl64 gives the exact half-even rounding unless the binary64 product is itself a half-integer), "
+    "C11_np_around_differs_only_near_tie (it can differ only within 2^-13 units of a tie); C11_prep_arr64_agrees, C11_sensitive / _scalar / "
     "_text / _coordinate / _mass / _charge / _fragment_charge / _discrete (changes above the rounding unit change the text — outside "
     "float_prep's zero-flush zone, whose extent is C11_flush_zone_geometry_bound / _mass_bound / _charge_bound), "
     "C11_sensitive_in_flush_zone_refuted (known finding: the threshold is 5**-(n+1), so -5e-7 and +5e-7 hash alike), "
     "C11_bond_order_invariant (any permutation and any orientation flips of the bond list give the same stored bonds; whole-tuple sort of "
     "commit 95cbbdc), C11_bond_canon_idempotent, C11_bond_listing_validated_alike (the validator's outcome incl. ValidationError is the same "
-    "for every listing) and C11_bond_listing_hash_invariant. The model is tied to the code on every run by the regenerated constants/shape "
+    "for every listing) and C11_bond_listing_hash_invariant; for bond lists stored as given (routes that skip the validator) "
+    "C11_stored_listing_hash_eq_iff (hash equality = equality of the listings, so == and the hash still coincide) and "
+    "C11_stored_listing_visible_refuted (the listing shows in the hash; known finding C11-text-keyword-bonds-unvalidated for "
+    "from_data(text, connectivity=...)). The model is tied to the code on every run by the regenerated constants/shape "
     "checks and by comparing its token list with the exact text the implementation hashed, for validated molecules x 12 construction routes "
-    "x 34 perturbations, library-derived molecules (align / scramble / orient_molecule / get_fragment / from_data(orient) / "
+    "x 36 perturbations, library-derived molecules (align / scramble / orient_molecule / get_fragment / from_data(orient) / "
     "geometry_noise=13) against their re-validated copies, molecules carrying identifiers.molecule_hash edited through copy(update) / dict "
     "merge, the same edits on live objects that were hashed and compared first (history), sequences in which a hashed molecule is dropped "
-    "before the next one is built, __eq__ against a dict, plus equality classes on pairs, float_prep on single numbers (also judged against "
+    "before the next one is built, __eq__ against a dict, the same values handed over in other containers / memory layouts / dtypes "
+    "(Fortran order, big-endian, strided, tuples, integer flags) and far from the origin (1e3 Bohr), pairs holding bond lists that never "
+    "passed the validator (from_data(text, connectivity=...), validated=True dict / JSON / msgpack payloads, copy(update)): hash equality "
+    "<=> == in both directions and against a dict, a mutation history (every array / list a live molecule hands out through its "
+    "properties and dict(), and every array it was built from, is modified in place; an independently built twin, molecules built afresh "
+    "from the same arguments / JSON / psi4 text, and the molecule itself where it does not store the value must hash as before; the "
+    "modification is undone afterwards), plus equality classes on pairs, float_prep on single numbers (also judged against "
     "the nearest multiple of 10^-n) and stored bond lists; the property oracle (exact decimal rounding of the getters' values, independent "
     "of float_prep) judges every pair on the implementation.")
 LEVEL_NOTE = (
@@ -1324,11 +1771,14 @@ LEVEL_NOTE = (
     "[encodings/text/files deliver values within noise: correspondence over 12 routes, C07/C10]; (3) non-hash fields: "
     "independent_of_non_hash_fields [full]; (4) noise / signed zero / tiny: noise_insensitive(_molecule), signed_zero_insensitive, "
     "tiny_is_zero, np_around_* [binary64 facts as hypotheses]; (5) bond listing: bond_order_invariant, bond_listing_validated_alike, "
-    "bond_listing_hash_invariant [full]; (6) sensitivity: sensitive_* for every listed field [full outside the zone; refuted inside]. "
+    "bond_listing_hash_invariant [full for validated lists; stored-as-given lists: stored_listing_hash_eq_iff, "
+    "stored_listing_visible_refuted = known finding C11-text-keyword-bonds-unvalidated]; (6) sensitivity: sensitive_* for every listed field [full outside the zone; refuted inside]. "
     "Trusted: Coq kernel + vm_compute; the hand-written model and the translator; SHA-1 assumed injective (parameter, not modelled); "
     "numpy.around: theorems are about exact half-even rounding of the binary64 value; its relation to numpy's binary64 algorithm is "
-    "C11_np_around_exact, whose two hypotheses on the floating multiplication (monotone, exact on half-integers) are IEEE-754 facts, not "
-    "proved of the executable fl64 (which is compared with the machine on every run, ties included); molecules with a value within 1e-3 "
+    "C11_np_around_exact, whose two hypotheses on the floating multiplication (monotone, exact on half-integers) are discharged for the "
+    "executable fl64 on [-2^40, 2^40] (C11_fl64_keeps_half, C11_np_around_exact_binary64); that the machine's multiplication is fl64 is "
+    "trusted (IEEE-754) and compared on every run, ties included; history through shared mutable values is only tested (mutation "
+    "stream; known finding C11-default-valued-array-kept-by-reference), the model has no notion of aliasing; molecules with a value within 1e-3 "
     "units of a tie are still excluded from the molecule-level comparison and counted; json.dumps/float repr modelled at token level; to_mass is an environment function; pydantic / from_schema "
     "validation not modelled. No axioms (all theorems closed under the global context). The documented 1e-8/1e-6/1e-4 rounding differs "
     "from the code near zero (zero-flush zone, known finding C11-zero-flip-threshold): the theorems are stated for float_prep as it is.")
